@@ -370,6 +370,9 @@ lower_arith_maxf = LowerBinaryFloatOp(arith.MaximumfOp, riscv.FMaxSOp, riscv.FMa
 class LowerArithNegf(RewritePattern):
     @op_type_rewrite_pattern
     def match_and_rewrite(self, op: arith.NegfOp, rewriter: PatternRewriter) -> None:
+        # `fsgnjn.s` negates a single-precision value only.
+        if not isinstance(op.operand.type, Float32Type):
+            raise NotImplementedError("Negf is only supported for 32 bit floats")
         rewriter.replace(
             op,
             (
